@@ -90,6 +90,7 @@ def emit(event, validator, row=None, error=None, **fields):
     }
     if event == "open":
         record["kinds"] = [_check_kind(check) for check in checks]
+        record["check_names"] = list(cid.check_names)
         record["fields"] = list(cid.field_names)
         record["header"] = cid.data_format.header
         record["format"] = cid.data_format.format
